@@ -10,7 +10,7 @@ PROPERTY = "C14"
 # E6: seq_ops() indices of the operations that are interrupted at every line (vf/seqexplore.interrupted); probes = the whole alphabet
 INTERRUPT_X = [0, 2]
 INTERRUPT_PROBES = None
-CONCUR_FILES = ('bits/ecmath.py', 'bits/utils.py', 'bits/keys.py')
+CONCUR_FILES = ('bits/ecmath.py', 'bits/utils.py', 'bits/keys.py', 'bits/pem.py', 'bits/base58.py')
 # (thread a, thread b), warm-up: indices into seq_ops() - the ordinary single-case checks run concurrently (vf/concur.py)
 CONCUR_SCEN = [((0, 6), ()), ((2, 2), (0,)), ((1, 7), (5,)), ((0, 6, 2), ())]   # the last one: three threads
 LEVEL = "exploration"
@@ -122,6 +122,11 @@ def chk_wif_rt(case):
     if dd[0] != "ok" or dd[1].get("network") != cls or dd[1].get("addr_type") != typ or dd[1].get("key") != key.hex() \
             or dd[1].get("data") != data.hex():
         return [("C14/wif/roundtrip-dict", f"wif_decode(.., return_dict=True) = {str(dd)[:240]} for {typ}/{net}")]
+    from vf.edits import aliasing
+    for rd in (True, False):
+        why = aliasing(lambda: bits.wif_decode(enc[1], return_dict=rd))
+        if why:
+            return [("C14/wif/aliased-result", f"wif_decode(.., return_dict={rd}) of the same string after the caller edited the first result: {why}")]
     return []
 
 
@@ -277,8 +282,29 @@ def long_ops(job):
     return ops
 
 
+def real_ops(job):
+    """the WIF and PEM containers on secp256k1 itself (the SEC1 alphabet below runs on a scaled-down curve): two keys x
+    {PEM private, PEM public compressed / uncompressed, WIF with and without suffix on two networks}"""
+    seed = job.get("seed", 0)
+    ops = []
+    for i, k in enumerate((int.from_bytes(filler(seed, "c14-rk0", 32), "big") % S.n or 1, 255)):
+        key = k.to_bytes(32, "big")
+        P = S.mul(k, S.G)
+        ops.append(("pem", {"what": "priv", "key": key.hex()}))
+        ops.append(("pem", {"what": "pub", "key": (bytes([2 + (P[1] & 1)]) + P[0].to_bytes(32, "big")).hex()}))
+        ops.append(("pem", {"what": "pub", "key": (b"\x04" + P[0].to_bytes(32, "big") + P[1].to_bytes(32, "big")).hex()}))
+        ops.append(("wif_rt", {"key": key.hex(), "data": "", "network": ("mainnet", "testnet")[i], "type": TYPES[i]}))
+        ops.append(("wif_rt", {"key": key.hex(), "data": filler(seed, "c14-rsfx", 33).hex(), "network": ("testnet", "mainnet")[i], "type": TYPES[-1 - i]}))
+    return ops
+
+
+REAL_SCEN = [((1, 6), ()), ((2, 7), (1,)), ((3, 8), ()), ((4, 9), (3,)), ((1, 3), ()), ((0, 5), ())]   # last: two private-key PEMs (thorough)
+
+
 def seq_ops(job):
-    """both parities of the same x, compressed and uncompressed, WIF and (thorough) PEM, in every order"""
+    """both parities of the same x, compressed and uncompressed, in every order (WIF / PEM: real_ops)"""
+    if job.get("name", "").startswith(("seqreal", "concurrent-real", "interrupted-real")):
+        return real_ops(job)
     cv = job["curve"]
     C = smallcurve.curve(cv)
     ops = []
@@ -312,7 +338,12 @@ def jobs(tier, seed):
     from vf.runner import interrupt_jobs
     js += interrupt_jobs(len(INTERRUPT_X), curve=list(T[0]))
     from vf.runner import concur_jobs
-    js += concur_jobs(len(CONCUR_SCEN), curve=list(T[0]))
+    js += concur_jobs(len(CONCUR_SCEN), curve=list(T[0]), deep=(tier == "thorough"))
+    js += seq_jobs(4, weight=6, name="seqreal")
+    for i in range(len(REAL_SCEN) - (1 if tier == "quick" else 0)):
+        js.append({"name": f"concurrent-real/{i}", "part": "concurcase", "idx": i, "curve": None, "weight": 6})
+    for i in range(2):
+        js.append({"name": f"interrupted-real/{i}", "part": "interrupted", "idx": i, "curve": None, "weight": 5})
     return js
 
 
@@ -320,7 +351,8 @@ def run_job(job):
     if job["part"] == "concurcase":
         from vf.runner import run_concur_job
         ops = seq_ops(dict(job, shard=[0, 1]))
-        scens = [{"threads": [ops[i] for i in sc[0]], "warm": [ops[i] for i in sc[1]], "post": [ops[i] for i in (sc[2] if len(sc) > 2 else ())]} for sc in CONCUR_SCEN]
+        table = REAL_SCEN if job["name"].startswith("concurrent-real") else CONCUR_SCEN
+        scens = [{"threads": [ops[i] for i in sc[0]], "warm": [ops[i] for i in sc[1]], "post": [ops[i] for i in (sc[2] if len(sc) > 2 else ())]} for sc in table]
         return run_concur_job(job, scens, run_case, PROPERTY, CONCUR_FILES)
     if job["part"] == "longhist":
         from vf.runner import run_long_job
@@ -329,6 +361,9 @@ def run_job(job):
         from vf.runner import run_interrupt_job
         ops = [o for o in seq_ops(dict(job, part="interrupted", shard=[0, 1]))]
         probes = ops if INTERRUPT_PROBES is None else [ops[i] for i in INTERRUPT_PROBES]
+        if job["name"].startswith("interrupted-real"):
+            # a public-key PEM / a WIF round trip interrupted at every line, then every container operation
+            return run_interrupt_job(job, [ops[1], ops[3]], ops, run_case, ("bits/utils.py", "bits/pem.py", "bits/base58.py", "bits/keys.py"))
         return run_interrupt_job(job, [ops[i] for i in INTERRUPT_X], probes, run_case, CONCUR_FILES)
     if job["part"] == "seq":
         from vf.runner import run_seq_job
